@@ -20,6 +20,13 @@
 //!   propagation, completion counts, prompt error, a registered waker for every blocked
 //!   direction (and the bridge's `Flag` is set by the event that unblocks it), termination.
 //!
+//! Bulk family: two or three chunks of up to 200 000 bytes (`z:<n>:<k>` = the bytes k, k+1, … mod 251)
+//! readable at once on the local side with credit 1 and 2: whatever the sizes, one poll may send one
+//! Push per unit of credit obtained (`credit-overrun`: frames sent ≤ credit granted;
+//! `credit-per-frame`: credit left + frames sent = credit granted). `--focus C03` is the run C03's
+//! check makes: bulk + small enumerated families + random cases, only those two monitors reported,
+//! no model comparison.
+//!
 //! `--pinned` compares with the model of the pinned code (`Penguin.Bridge.pinned`; used to confirm
 //! on the unrepaired tree that the model mirrors both defects). `--kl/--km/--kd N` override the
 //! enumeration bounds. A bridge that ends blocked on credit because the peer application dropped
